@@ -540,6 +540,36 @@ func holdsIn(fs []Fact, pred func(Fact) bool, depth int, busy map[*ssa.Phi]bool)
 	if depth > 6 {
 		return false
 	}
+	// a nil test of a phi of errors (what an inlined `return nil, err` helper
+	// leaves): only the operands that can have the tested nil-ness count
+	for _, f := range fs {
+		rel := f.Rel()
+		if (rel.Op != token.EQL && rel.Op != token.NEQ) || !IsNilConst(rel.Y) {
+			continue
+		}
+		phi, ok := rel.X.(*ssa.Phi)
+		if !ok || busy[phi] {
+			continue
+		}
+		wantNil := rel.Op == token.EQL
+		busy[phi] = true
+		all := true
+		n := 0
+		for i, e := range phi.Edges {
+			if IsNilConst(e) != wantNil && (IsNilConst(e) || (PathQuery{}).nonNilValue(e, 0)) {
+				continue // this operand cannot have the tested nil-ness
+			}
+			n++
+			if !holdsIn(FactsAtEdge(phi.Block().Preds[i], phi.Block()), pred, depth+1, busy) {
+				all = false
+				break
+			}
+		}
+		delete(busy, phi)
+		if all && n > 0 {
+			return true
+		}
+	}
 	for _, f := range fs {
 		rel := f.Rel()
 		if rel.B == nil {
@@ -577,4 +607,24 @@ func holdsIn(fs []Fact, pred func(Fact) bool, depth int, busy map[*ssa.Phi]bool)
 		}
 	}
 	return false
+}
+
+// HoldsEntering reports whether pred is established on every edge into block
+// b: by the facts of the edge, or — when the edge comes from a join whose own
+// facts are only what its predecessors share — on every edge into that join.
+// (The shape of a shared `return` reached from several guarded branches.)
+func HoldsEntering(b *ssa.BasicBlock, pred func(Fact) bool, depth int) bool {
+	if depth > 6 || len(b.Preds) == 0 {
+		return false
+	}
+	for _, p := range b.Preds {
+		if HasFact(FactsAtEdge(p, b), pred) {
+			continue
+		}
+		if len(p.Preds) >= 2 && HoldsEntering(p, pred, depth+1) {
+			continue
+		}
+		return false
+	}
+	return true
 }
